@@ -199,7 +199,12 @@ pub fn eval(case: &Case) -> Out {
         out.violations = v;
         return out;
     };
-    let e_us = server.unwrap_or(asked) as u64 * TICKS_PER_S;
+    // On the first connection of a session there is nothing the client could have learnt earlier:
+    // the CONNECT must carry the configured keep-alive.
+    if case.conns.len() == 1 && asked != case.cfg.keepalive {
+        bad(&mut v, "C10/connect-keepalive-differs-from-configured".into(), format!("the first CONNECT of the session advertises keep-alive {asked} s, configured {} s", case.cfg.keepalive));
+    }
+    let e_us = server.unwrap_or(if case.conns.len() == 1 { case.cfg.keepalive } else { asked }) as u64 * TICKS_PER_S;
     // timeline of interesting instants
     let mut t0 = 0u64;
     let mut sent: Vec<(u64, bool)> = Vec::new(); // (completion time, is PINGREQ)
